@@ -127,7 +127,7 @@ def one(ctx, i):
         cfg = gen.rand_cfg(rng, n_max=3 if quick else 4, demes_max=2 if not quick else 1 + (rng.random() < 0.3), epochs_max=2, loci=2)
     else:
         cfg = gen.rand_cfg(rng, n_max=5 if quick else 7, demes_max=3, epochs_max=3)
-    compare(ctx, cfg, pg, 45 if quick else 130, rng)
+    compare(ctx, cfg, pg, 45 if quick else 100, rng)
 
 
 def survival_n2(cfg, t):
@@ -176,7 +176,7 @@ def quantile_family(ctx, i):
 
 def run(ctx):
     import check
-    check.pmap(ctx, 'props.c03', 'one', list(range(64 if ctx.quick else 320)), case_timeout=200 if ctx.quick else 1500)
+    check.pmap(ctx, 'props.c03', 'one', list(range(64 if ctx.quick else 200)), case_timeout=200 if ctx.quick else 1500)
     check.pmap(ctx, 'props.c03', 'quantile_family', list(range(96 if ctx.quick else 600)), case_timeout=200)
 
 
